@@ -1,0 +1,17 @@
+//! Verification-only entry points, compiled only with the cargo feature `astrolabe_verif`.
+#![allow(missing_docs)]
+use crate::DateTime;
+use std::cell::Cell;
+
+thread_local! {
+    static CRON_NOW: Cell<Option<DateTime>> = const { Cell::new(None) };
+}
+
+/// Pins the clock read by `CronSchedule::next` on the current thread (`None` restores the wall clock).
+pub fn set_cron_now(now: Option<DateTime>) {
+    CRON_NOW.with(|c| c.set(now));
+}
+
+pub(crate) fn cron_now() -> Option<DateTime> {
+    CRON_NOW.with(|c| c.get())
+}
